@@ -374,6 +374,12 @@ class RootContextBuilder:
             *(stmt for handler in node.handlers for stmt in handler.body),
         )
 
+    def visit_TryStar(self, node: ast.TryStar) -> None:
+        self.visit_Try(node)
+
+    def visit_Match(self, node: ast.Match) -> None:
+        self.register_stmts(*(stmt for case in node.cases for stmt in case.body))
+
     def visit_With(self, node: ast.With) -> None:
         self.register_stmts(*node.body)
 
